@@ -16,7 +16,9 @@ import (
 	"regexp"
 	"sort"
 	"strings"
-	"time"
+
+	expectations "github.com/openkruise/rollouts/pkg/util/expectation"
+	"github.com/openkruise/rollouts/pkg/util/grace"
 
 	"verif/harness/core"
 	"verif/harness/drivers/e1"
@@ -175,10 +177,24 @@ type soloResult struct {
 	stop      string
 }
 
-func multiCase(env *core.Env, idx int, concurrent bool) *core.CaseResult {
+func multiCase(env *core.Env, idx int, concurrent, timed bool) *core.CaseResult {
 	res := &core.CaseResult{}
 	rng := env.RNG(idx)
 	tenants, sameNS := genTenants(rng)
+	if timed {
+		// grace periods of 1 s on the traffic routes: RunWithGraceSeconds now records expectations in the process-wide
+		// table (with 0 it only clears them), waits are real
+		for _, s := range tenants {
+			if !s.HasTraffic() {
+				s.Provider = "ingress:nginx"
+			}
+			s.Grace = 1
+			s.Events = nil
+			if len(s.Steps) > 2 {
+				s.Steps = s.Steps[:2]
+			}
+		}
+	}
 	seed := rng.Int63()
 	known := core.KnownFingerprints()
 
@@ -229,9 +245,48 @@ func multiCase(env *core.Env, idx int, concurrent bool) *core.CaseResult {
 			mons[i] = monitor.AttachTenant(r)
 		}
 	}
-	t0 := time.Now()
+	// every key of the process-wide grace / expectation tables must belong to exactly one of the rollouts
+	judged := map[string]bool{}
+	uidOwner := map[string]string{}
+	ownerOf := func(ns, name string) string {
+		best, bestLen := "", -1
+		for _, t := range clones {
+			if t.NS != ns {
+				continue
+			}
+			if (name == t.Name || strings.HasPrefix(name, t.Name+"-")) && len(t.Name) > bestLen {
+				best, bestLen = t.NS+"/"+t.Name, len(t.Name)
+			}
+		}
+		return best
+	}
+	mr.AfterAction = func() {
+		for table, keys := range map[string][]string{"grace": grace.VerifKeys(), "resource-expectations": expectations.VerifKeys()} {
+			for _, k := range keys {
+				if judged[table+k] {
+					continue
+				}
+				judged[table+k] = true
+				res.Count("process_table_keys_judged", 1)
+				owner := ""
+				if i := strings.Index(k, "/"); i > 0 {
+					owner = ownerOf(k[:i], k[i+1:])
+				} else {
+					if _, ok := uidOwner[k]; !ok {
+						snap := mr.W.Store.Snapshot()
+						for _, key := range snap.Keys() {
+							uidOwner[simapi.UID(snap.GetKey(key))] = ownerOf(key.NS, key.Name)
+						}
+					}
+					owner = uidOwner[k]
+				}
+				if owner == "" {
+					res.Violate("c19:process-table-key-not-attributable-to-one-rollout:"+table, fmt.Sprintf("the %s table holds key %q, which is neither <namespace>/<name> of one rollout's objects nor the uid of one: rollouts whose objects share that name share the entry", table, k), gen.NF{"key": k, "tenants": tenantNames(clones)})
+				}
+			}
+		}
+	}
 	mr.Execute()
-	_ = t0
 	res.Count("multi_runs", 1)
 	res.Count("tenants_run_together", int64(len(clones)))
 	res.Count("scheduler_actions", int64(mr.Actions))
@@ -343,6 +398,14 @@ func multiCase(env *core.Env, idx int, concurrent bool) *core.CaseResult {
 		res.Sample = gen.NF{"kind": "multi-tenant run", "tenants": ts, "concurrent": concurrent, "actions": mr.Actions, "writes": mr.W.Store.Writes(), "maxInFlight": mr.MaxInFlight, "overlaps": mr.OverlappedPairs, "stop": mr.StopReason}
 	}
 	return res
+}
+
+func tenantNames(l []*sim.Scenario) []string {
+	var out []string
+	for _, t := range l {
+		out = append(out, t.NS+"/"+t.Name)
+	}
+	return out
 }
 
 func sumMap(m map[string]int) int {
@@ -465,15 +528,24 @@ func init() {
 		},
 		RunCase: func(env *core.Env, idx int) *core.CaseResult {
 			var res *core.CaseResult
+			if idx%17 == 6 {
+				// timed cases (real 1 s grace periods): spread over the workers, they mostly sleep
+				res = multiCase(env, idx, true, true)
+				if raceEnabled {
+					res.Count("cases_run_under_race_detector", 1)
+				}
+				res.Count("timed_multi_runs", 1)
+				return res
+			}
 			switch idx % 8 {
 			case 0, 1:
 				res = e4Case(env, idx)
 			case 2:
 				res = luaCase(env, idx)
 			case 3:
-				res = multiCase(env, idx, false)
+				res = multiCase(env, idx, false, false)
 			default:
-				res = multiCase(env, idx, true)
+				res = multiCase(env, idx, true, false)
 			}
 			if raceEnabled {
 				res.Count("cases_run_under_race_detector", 1)
